@@ -507,16 +507,9 @@ Qed.
 Lemma repeat_concat_bytes u n : byte_list u -> byte_list (concat (repeat u n)).
 Proof. intros Hu. induction n; cbn; [constructor|]. apply Forall_app. split; assumption. Qed.
 
-Definition valid_bytes (c : case) : Prop :=
-  match c with
-  | CBytes _ _ bs => byte_list bs
-  | CNest _ _ u _ tail => byte_list u /\ byte_list tail
-  | CSizes => True
-  end.
-
-Theorem oracle_holds c : valid c -> valid_bytes c -> known c = 0 -> oracle c (C02.Model.run c) = true.
+Theorem oracle_holds c : valid c -> known c = 0 -> oracle c (C02.Model.run c) = true.
 Proof.
-  intros Hv Hb _.
+  intros Hv _.
   assert (Hgen : forall dk o bs, valid_opts o -> byte_list bs ->
     match decode dk o bs with
     | (Ok (p, rest), s) =>
@@ -537,10 +530,10 @@ Proof.
     - destruct H as (H1 & H2). specialize (Hfl _ H2).
       apply andb_true_intro; split; apply Z.leb_le; lia. }
   destruct c as [dk o bs|dk o u n tail|]; [| |reflexivity].
-  - cbn [valid valid_bytes] in *. specialize (Hgen dk o bs Hv Hb).
+  - cbn [valid] in *. destruct Hv as [Hv Hb]. specialize (Hgen dk o bs Hv Hb).
     unfold oracle, C02.Model.run. cbn [case_bytes].
     destruct (decode dk o bs) as [[[p rest]|e|pp] s]; [| |contradiction]; cbn [app]; exact Hgen.
-  - cbn [valid valid_bytes] in *. destruct Hb as [Hu Ht].
+  - cbn [valid] in *. destruct Hv as (Hv & Hu & Ht).
     assert (Hbs : byte_list (concat (repeat u (Z.to_nat n)) ++ tail))
       by (apply Forall_app; split; [apply repeat_concat_bytes, Hu|exact Ht]).
     specialize (Hgen dk o _ Hv Hbs).
